@@ -81,6 +81,8 @@ type Fold struct {
 	Elem   Expr
 	Op     string
 	Mod    Expr // modulus of a mulmod fold
+	Init   Expr // value of the empty fold (default: 1 for mul, 0 for add)
+	Keys   bool // mapfold: the last parameter ranges over the keys of a map
 	Src    string
 }
 
@@ -169,7 +171,7 @@ func LoadContracts(cs *ContractSet, pkgPath, file string) error {
 		line int
 	}
 	var logical []ll
-	kw := regexp.MustCompile(`^(func|property|safety|requires|ensures|mustfail|assume|modifies|loop|trusted|assert|pred|implementers|axiom|lemma|fresh|pure|declare|inline|nopanic|uses|global|assumeframe|nonlinear|premise|fold|ghost)\b`)
+	kw := regexp.MustCompile(`^(func|property|safety|requires|ensures|mustfail|assume|modifies|loop|trusted|assert|pred|implementers|axiom|lemma|fresh|pure|declare|inline|nopanic|uses|global|assumeframe|nonlinear|premise|fold|mapfold|ghost)\b`)
 	for i, l := range lines {
 		t := strings.TrimSpace(l)
 		if !strings.HasPrefix(t, "//@") {
@@ -260,8 +262,10 @@ func LoadContracts(cs *ContractSet, pkgPath, file string) error {
 				}
 			}
 			cs.Axioms = append(cs.Axioms, &Axiom{Pkg: pkgPath, Name: m[1], Src: m[3], E: e, Vars: vs})
-		case "fold":
-			m := regexp.MustCompile(`^([A-Za-z0-9_]+)\(([^)]*)\)\s*:=\s*(.*?)\s+op\s+(mul|add|mulmod)(?:\s+(.*))?$`).FindStringSubmatch(rest)
+		case "fold", "mapfold":
+			// fold name(params, i) := elem op mul|add|mulmod m [from init]
+			// mapfold name(params, k) := elem op mul|add [from init]   (product / sum over the keys of a map)
+			m := regexp.MustCompile(`^([A-Za-z0-9_]+)\(([^)]*)\)\s*:=\s*(.*?)\s+op\s+(mul|add|mulmod)\b(.*)$`).FindStringSubmatch(rest)
 			if m == nil {
 				return fail(fmt.Errorf("bad fold"))
 			}
@@ -269,9 +273,23 @@ func LoadContracts(cs *ContractSet, pkgPath, file string) error {
 			if err != nil {
 				return fail(err)
 			}
-			var modE Expr
+			tail, from := strings.TrimSpace(m[5]), ""
+			if strings.HasPrefix(tail, "from ") {
+				tail, from = "", strings.TrimSpace(tail[5:])
+			} else if k := strings.LastIndex(tail, " from "); k >= 0 {
+				tail, from = strings.TrimSpace(tail[:k]), strings.TrimSpace(tail[k+6:])
+			}
+			var modE, initE Expr
 			if m[4] == "mulmod" {
-				modE, err = ParseSpec(m[5])
+				modE, err = ParseSpec(tail)
+				if err != nil {
+					return fail(err)
+				}
+			} else if tail != "" {
+				return fail(fmt.Errorf("bad fold: unexpected %q", tail))
+			}
+			if from != "" {
+				initE, err = ParseSpec(from)
 				if err != nil {
 					return fail(err)
 				}
@@ -280,7 +298,7 @@ func LoadContracts(cs *ContractSet, pkgPath, file string) error {
 			for _, p := range strings.Split(m[2], ",") {
 				ps = append(ps, strings.TrimSpace(p))
 			}
-			cs.Folds[m[1]] = &Fold{Pkg: pkgPath, Name: m[1], Params: ps, Elem: e, Op: m[4], Mod: modE, Src: rest}
+			cs.Folds[m[1]] = &Fold{Pkg: pkgPath, Name: m[1], Params: ps, Elem: e, Op: m[4], Mod: modE, Init: initE, Keys: word == "mapfold", Src: rest}
 		case "global":
 			e, err := ParseSpec(rest)
 			if err != nil {
